@@ -286,6 +286,13 @@ class Engine(ExprMixin, CallMixin, ContractMixin, BuiltinMixin, StmtMixin, LoopM
                 raise EngineError(f"until={fs.until!r} matches {len(cut)} top-level statements of {target}")
             self.dropped = f"statements from line {body[cut[0]].lineno} on (`{fs.until}` ...) are outside this contract"
             body = body[: cut[0]]
+        if getattr(fs, "since", None):
+            start = [i for i, b in enumerate(body) if ast.unparse(b).startswith(fs.since)]
+            if len(start) != 1:
+                raise EngineError(f"since={fs.since!r} matches {len(start)} top-level statements of {target}")
+            self.dropped = ((self.dropped + "; ") if getattr(self, "dropped", None) else "") + \
+                f"statements before line {body[start[0]].lineno} (`{fs.since}` ...) are outside this contract: their results are ghost parameters"
+            body = body[start[0]:]
         outcomes = self.exec_block(body, st)
         for s2, oc in outcomes:
             self.paths += 1
